@@ -199,10 +199,11 @@ def measure_row(name, g, thunk, kind):
 def snapshot(g):
     """deep, identity-free content of a graph (nested metadata included)"""
     if isinstance(g, TimeSeriesCausalGraph):
-        idx = (sorted((k, [n.identifier for n in v]) for k, v in g._lag_to_nodes.items()), sorted((k, [n.identifier for n in v]) for k, v in g._variable_name_to_nodes.items()))
+        idx = (sorted((k, [n.identifier for n in v]) for k, v in g._lag_to_nodes.items() if v),
+               sorted((k, [n.identifier for n in v]) for k, v in g._variable_name_to_nodes.items() if v))
     else:
         idx = None
-    return json.dumps([g.to_dict(), idx, sorted((d, sorted(x)) for d, x in g._edges_by_destination.items())], sort_keys=True, default=str)
+    return json.dumps([g.to_dict(), idx, sorted((d, sorted(x)) for d, x in g._edges_by_destination.items() if x)], sort_keys=True, default=str)
 
 
 def canon_result(r, kind):
@@ -325,6 +326,59 @@ def behavioural(run, name, g, thunk, kind, rng):
     return problems
 
 
+LIST_EXPORTS = {
+    'get_edges()': lambda g: g.get_edges(), 'edges': lambda g: g.edges, 'get_nodes()': lambda g: g.get_nodes(), 'nodes': lambda g: g.nodes,
+    'get_edge_pairs()': lambda g: g.get_edge_pairs(), 'get_inputs()': lambda g: g.get_inputs(), 'get_outputs()': lambda g: g.get_outputs(),
+    'get_node_names()': lambda g: g.get_node_names(), 'get_directed_edges()': lambda g: g.get_directed_edges(),
+    'get_nondirected_edges()': lambda g: g.get_nondirected_edges(), 'get_parents(n)': lambda g: g.get_parents(g.get_node_names()[-1]),
+    'get_children(n)': lambda g: g.get_children(g.get_node_names()[0]), 'get_neighbors(n)': lambda g: g.get_neighbors(g.get_node_names()[0]),
+    'get_neighbor_nodes(n)': lambda g: g.get_neighbor_nodes(g.get_node_names()[0]), 'get_edges(source=n)': lambda g: g.get_edges(source=g.get_node_names()[0]),
+    'get_all_causal_paths': lambda g: g.get_all_causal_paths(g.get_node_names()[0], g.get_node_names()[-1]),
+    'get_topological_order()': lambda g: g.get_topological_order(), 'skeleton.edges': lambda g: g.skeleton.edges, 'skeleton.nodes': lambda g: g.skeleton.nodes,
+    'skeleton.get_edge_pairs()': lambda g: g.skeleton.get_edge_pairs(),
+}
+
+
+def list_exports_are_snapshots(g):
+    """every list / set the graph hands out is a snapshot at the CONTAINER level: emptying, reversing or extending it changes
+    neither the graph nor the next export (the Node / Edge objects inside are handles by design)"""
+    def canon(r):
+        return sorted(repr(getattr(x, 'identifier', x)) for x in r) if isinstance(r, (set, frozenset)) else [repr(getattr(x, 'identifier', x)) for x in r]
+    problems = []
+    for name, f in LIST_EXPORTS.items():
+        try:
+            g0 = snapshot(g)
+            first = f(g)
+            before = canon(f(g))
+            if isinstance(first, list):
+                first.reverse()
+                first.append('MUT')
+                del first[:1]
+            elif isinstance(first, set):
+                first.clear()
+                first.add('MUT')
+            else:
+                continue
+        except Exception:  # noqa: BLE001  (queries that do not apply to this graph)
+            continue
+        try:
+            changed = snapshot(g) != g0
+            later = canon(f(g))
+        except Exception as e:  # noqa: BLE001
+            problems.append(f'after mutating the list returned by {name} the graph can no longer be exported ({type(e).__name__}: {e}): the list is an internal container')
+            return problems
+        if changed:
+            problems.append(f'mutating the list returned by {name} changed the graph')
+        elif later != before:
+            problems.append(f'mutating the list returned by {name} changed a later {name}')
+        elif any(canon(h(g)) != b for h, b in EXTRA_BASELINE.get(id(g), [])):
+            problems.append(f'mutating the list returned by {name} changed another export')
+    return problems
+
+
+EXTRA_BASELINE = {}
+
+
 def check(run, tier, seed):
     rng = random.Random(seed)
     n = 12 if tier == 'quick' else 120
@@ -341,6 +395,11 @@ def check(run, tier, seed):
                 except Exception as e:  # noqa: BLE001
                     raise RuntimeError(f'{name} raised {type(e).__name__}: {e}') from e
                 measured.setdefault(name, set()).add(lv)
+        for gx in (ts, pl):
+            for why in list_exports_are_snapshots(gx):
+                if viol < 3:
+                    viol += 1
+                    run.violation(dict(operation='list export', why=why, seed=seed, iteration=it), note=why)
         # behavioural checks on fresh graphs (mutations are destructive)
         for name in table:
             ts2, pl2 = make_graphs(rng)
